@@ -203,6 +203,19 @@ SPECS = {
                      "permuted order); the verdict is computed from the identity sets; old-group freeze checked on every member (own build and "
                      "a commit forged by an insider ignoring the freeze); mismatched joins (plain Client::join_group, Welcome of epoch 2, "
                      "resumption secret of another epoch); distinct = distinct (flow, variant, key change) cells"),
+    "C18": dict(shards=(8, 32), level="exploration",
+                floors={"quick": {"receiver_expected_to_accept": 1600, "receiver_expected_to_reject": 700, "holder_accepted_and_agrees": 1600,
+                                  "rejector_follows_alternative_commit": 700, "joiner_expected_to_join": 30, "joiner_expected_to_fail": 100,
+                                  "trial:External": 100, "trial:CommitterLacks": 100, "pure_secret_pairs_compared": 12000,
+                                  "psk_commit_with_path": 250, "psk_commit_without_path": 200, "receiver_holds:stored_past_epoch": 100,
+                                  "receiver_holds:unwritten_past_epoch": 100, "refused:resumption_epoch_trimmed:OldGroupStateNotFound": 50,
+                                  "refused:resumption_epoch_before_join:OldGroupStateNotFound": 100}},
+                show=("histories", "trial:", "receiver_", "holder_", "rejector_", "joiner_expected", "psk_commit", "psk_list_len", "refused:",
+                      "committer_lacks", "member_", "late_joiner", "pure_secret", "pure_variant", "receiver_holds"),
+                rule="one evaluation = one receiver / joiner / committer decision in a PSK trial, or one pure PSK-list variant; distinct = "
+                     "distinct (kind, expected verdict, reason, list length, number of PSKs not held) classes and (provider, suite, variant, "
+                     "list length) classes; trials run on clones of every member at every epoch of histories in which members write, reload "
+                     "and join at different epochs"),
     "C19": dict(shards=(8, 32), level="exploration",
                 floors={"quick": {"late_expected_ok": 800, "late_expected_err": 300, "late_sender_leaf_vacated_or_rekeyed": 40,
                                   "storage_contents_checked": 800, "late_refused_with:EpochNotFound": 150,
